@@ -286,10 +286,16 @@ pub fn run(sc: &Scenario) -> Outcome {
         build_error: None,
     };
     assert!(sc.spec.kind == Kind::Standard, "harness: E1 uses standard-kind automata");
-    let pma = match pma::build(&sc.spec) {
-        Ok(p) => p,
-        Err(e) => {
+    // A build that fails or panics is not C12's business (C10): the run is counted, not judged.
+    let built = std::panic::catch_unwind(std::panic::AssertUnwindSafe(|| pma::build(&sc.spec)));
+    let pma = match built {
+        Ok(Ok(p)) => p,
+        Ok(Err(e)) => {
             out.build_error = Some(e);
+            return out;
+        }
+        Err(_) => {
+            out.build_error = Some("construction panicked".into());
             return out;
         }
     };
@@ -822,6 +828,23 @@ pub fn sweep_scenarios(base: &Scenario) -> Vec<Scenario> {
         }
     }
     out
+}
+
+/// Does one of the *slice* searches this scenario relies on as its reference panic by itself?
+/// Then the defect is in code shared by both entry points (C01/C07 territory) and the run
+/// cannot be judged for C12.
+pub fn reference_panics(sc: &Scenario) -> bool {
+    std::panic::catch_unwind(std::panic::AssertUnwindSafe(|| {
+        let Ok(p) = pma::build(&sc.spec) else { return };
+        for h in &sc.handles {
+            if let Some(c) = sc.streams.get(h.stream) {
+                for cut in gen::boundaries(sc.spec.variant, c) {
+                    let _ = pma::search(&*p, h.method, &c[..cut]);
+                }
+            }
+        }
+    }))
+    .is_err()
 }
 
 pub fn scenario_hash(sc: &Scenario) -> u64 {
